@@ -108,11 +108,16 @@ def _run_item(arg: tuple) -> Result:
 
 
 def load_known(property_id: str) -> tuple[list[dict], list[dict]]:
-    if not KNOWN_FINDINGS.exists():
-        return [], []
-    data = json.loads(KNOWN_FINDINGS.read_text())
-    known = [e for e in data.get("known", []) if e["property"] == property_id]
-    fixed = [e for e in data.get("fixed", []) if e["property"] == property_id]
+    known: list[dict] = []
+    fixed: list[dict] = []
+    # known_findings.json is the committed list; findings_proposed/<ID>.json is a staging area used while a check is
+    # being built (reviewed and merged into known_findings.json by hand, never written at run time)
+    for path in (KNOWN_FINDINGS, ROOT / "findings_proposed" / f"{property_id}.json"):
+        if not path.exists():
+            continue
+        data = json.loads(path.read_text())
+        known += [e for e in data.get("known", []) if e["property"] == property_id]
+        fixed += [e for e in data.get("fixed", []) if e["property"] == property_id]
     return known, fixed
 
 
